@@ -34,6 +34,10 @@ func distinct4(q *tree.Quartet) bool {
 
 // H_C04d_quartet_hash: for ALL uint taxon ids, hash/equality agreement of quartets.
 func H_C04d_quartet_hash() {
+	// the 5-comparator sorting network inside HashCode is split into paths
+	// rather than if-converted: each path then compares two hash terms over
+	// the same (PC-equal) inputs, which the solver decides by congruence
+	sxOpt("no-ifconv", true)
 	q1 := &tree.Quartet{T1: uint(sxU64("a1")), T2: uint(sxU64("a2")), T3: uint(sxU64("a3")), T4: uint(sxU64("a4"))}
 	q2 := &tree.Quartet{T1: uint(sxU64("b1")), T2: uint(sxU64("b2")), T3: uint(sxU64("b3")), T4: uint(sxU64("b4"))}
 	sxAssume(distinct4(q1))
